@@ -1,17 +1,18 @@
 #!/bin/bash
-# tools/seed_store.sh <property-id> <worktree> <violation-file>   (after tools/seed_eval.sh confirmed the change)
+# tools/seed_store.sh <property-id> <worktree> <violation-file> [seed-id]   (after tools/seed_eval.sh confirmed the change)
+# seed-id defaults to the property id; a second seed of a property is stored as e.g. C01b
 # Copies <worktree>/SEED/* to seeded/<id>/, the violating input my check found to
 # seeded/<id>/replay-found-by-check.bin and replays/<id>/seeded-<id>-1.bin; meta.json is written by hand.
 set -eu
-ID="$1"; W="$2"; V="${3:-}"
-D=/verif/seeded/$ID
+ID="$1"; W="$2"; V="${3:-}"; SID="${4:-$1}"
+D=/verif/seeded/$SID
 mkdir -p "$D"
 cp "$W"/SEED/patch.diff "$W"/SEED/NOTES.md "$W"/SEED/build_and_run.sh "$D"/ 2>/dev/null || true
 cp "$W"/SEED/*.cc "$D"/ 2>/dev/null || true
 if [ -n "$V" ] && [ -f "$V" ]; then
   cp "$V" "$D/replay-found-by-check.bin"
-  n=$(ls /verif/replays/$ID/seeded-* 2>/dev/null | wc -l); n=$((n+1))
+  n=$(ls /verif/replays/$ID/seeded-$SID-* 2>/dev/null | wc -l); n=$((n+1))
   ext=bin; case "$V" in *.*.bin) ext="$(basename "$V" | cut -d. -f2).bin";; esac
-  mkdir -p /verif/replays/$ID; cp "$V" "/verif/replays/$ID/seeded-$ID-$n.$ext"
+  mkdir -p /verif/replays/$ID; cp "$V" "/verif/replays/$ID/seeded-$SID-$n.$ext"
 fi
 ls "$D"
